@@ -7,6 +7,9 @@
  *               T <length> <returned>
  *               X <name>            (a call on the output descriptor the model has no event for)
  *   C14_KILL  k >= 0: SIGKILL the process right before the k-th (0-based) output call
+ *   C14_SIZES optional second log: one line "<fstat st_size of the output descriptor>" appended right after every
+ *             logged W / T call returned (same order as C14_LOG): the PHYSICAL length of the file a kill at
+ *             that point would leave behind (compared with the model's length, strengthening for seed C14-8)
  *
  * Wrapped: pwrite, pwrite64, write, writev, pwritev, pwritev64, ftruncate, ftruncate64,
  * and (as "X" = a call the model has no event for) writev, pwritev, fallocate, posix_fallocate,
@@ -30,6 +33,7 @@
 
 static const char *out_path;
 static int log_fd = -1;
+static int size_fd = -1;
 static long kill_at = -1;
 static long counter;
 static pthread_mutex_t mtx = PTHREAD_MUTEX_INITIALIZER;
@@ -46,9 +50,28 @@ static void init(void)
 	s = getenv("C14_LOG");
 	if (s != NULL)
 		log_fd = (int)syscall(SYS_open, s, O_WRONLY | O_CREAT | O_APPEND | O_CLOEXEC, 0644);
+	s = getenv("C14_SIZES");
+	if (s != NULL)
+		size_fd = (int)syscall(SYS_open, s, O_WRONLY | O_CREAT | O_APPEND | O_CLOEXEC, 0644);
 	s = getenv("C14_KILL");
 	if (s != NULL && *s != '\0')
 		kill_at = strtol(s, NULL, 10);
+}
+
+/* called with the mutex held, right after the real call returned */
+static void log_size(int fd)
+{
+	struct stat st;
+	char b[48];
+	int n;
+
+	if (size_fd < 0)
+		return;
+	if (fstat(fd, &st) != 0)
+		n = snprintf(b, sizeof(b), "-1\n");
+	else
+		n = snprintf(b, sizeof(b), "%lld\n", (long long)st.st_size);
+	(void)!syscall(SYS_write, size_fd, b, (size_t)n);
 }
 
 static int is_out(int fd)
@@ -137,6 +160,7 @@ static ssize_t do_pwrite(const char *sym, int fd, const void *buf, size_t n, off
 	crash_point();
 	r = real(fd, buf, n, off);
 	log_write((uint64_t)off, (long)r, n, buf);
+	log_size(fd);
 	pthread_mutex_unlock(&mtx);
 	return r;
 }
@@ -164,6 +188,7 @@ ssize_t write(int fd, const void *buf, size_t n)
 	pos = lseek(fd, 0, SEEK_CUR);
 	r = real(fd, buf, n);
 	log_write((uint64_t)pos, (long)r, n, buf);
+	log_size(fd);
 	pthread_mutex_unlock(&mtx);
 	return r;
 }
@@ -183,6 +208,7 @@ static int do_ftruncate(const char *sym, int fd, off_t len)
 	r = real(fd, len);
 	n = snprintf(b, sizeof(b), "T %llu %d\n", (unsigned long long)len, r);
 	raw_log(b, (size_t)n);
+	log_size(fd);
 	pthread_mutex_unlock(&mtx);
 	return r;
 }
